@@ -22,6 +22,10 @@ func (s *lifeStream) ReassemblyComplete(msgs []*auparse.AuditMessage) { s.groups
 func (s *lifeStream) EventsLost(n int)                               { s.lost++ }
 
 func lifeOf(t int) (life int) {
+	// journalled as the history it is, so that a call that never returns is reported with a replayable input
+	guardEnter(RCase{Max: 4, TimeoutNs: int64(time.Hour), InWindow: true, Ops: []ROp{
+		{K: "push", ID: 1, Seq: 7, Typ: uint16(t)}, {K: "push", ID: 2, Seq: 7, Typ: tEOE}, {K: "close"}}})
+	defer guardLeave()
 	defer func() {
 		if recover() != nil {
 			life = 9
@@ -44,8 +48,6 @@ func lifeOf(t int) (life int) {
 // reasmBoundaryTypes returns the record types at the ends of the runs of equal life cycle (and the
 // fixed landmarks of the model), at most limit of them.
 func reasmBoundaryTypes(limit int) []uint16 {
-	guardEnter(map[string]string{"block": "record-type sweep"})
-	defer guardLeave()
 	set := map[int]bool{0: true, 65535: true, 1299: true, 1300: true, tEOE: true, tPROCTITLE: true, 2099: true, 2100: true}
 	prev := lifeOf(0)
 	for t := 1; t < 65536 && len(set) < limit; t++ {
